@@ -775,8 +775,9 @@ func (l *lexer) scanEscape() rune {
 		ch = l.next()
 	}
 
-	if ch == stopTok {
-		// Reset the string.
+	if ch == stopTok && l.hasError() {
+		// Reset the string on error, but not when the escape is simply the
+		// last thing in the path.
 		l.resetStrBuf()
 	}
 
